@@ -6,7 +6,7 @@
    definition each name has at the moment of the call.  `Inv st` relates the compiled slots and the two
    function tables of a model state; `Rel st ft` says the names have the definitions ft in st.
    `comparable r`: r is a value or a condition other than undefined-function (and not "out of fuel"). *)
-From Coq Require Import List String Permutation.
+From Coq Require Import List ZArith String Permutation.
 From C08 Require Import Model Spec Proofs.
 Import ListNotations.
 
@@ -46,20 +46,20 @@ Theorem C08_compile_then_evaluate : forall n st ft en e rS oS,
 Proof. exact compile_transparent. Qed.
 Print Assumptions C08_compile_then_evaluate.
 
-(* (5) A definition inside the guard keeps the invariant and gives the name exactly that definition:
-   in particular a placeholder created for an earlier call is patched so that the earlier compiled
-   calls (which keep their arguments) reach the new body. *)
+(* (5) EVERY definition - of a new name, of a name called before (placeholder), a second or third definition -
+   keeps the invariant and gives the name exactly that definition: the Lambda registered for the name takes
+   the definition over and is the one all compiled calls hold (no guard since repo_fixes/C08-3). *)
 Theorem C08_defun_step : forall st ft name ps body,
-  Inv st -> Rel st ft -> g_defun st name ps body = true ->
+  Inv st -> Rel st ft ->
   Inv (defunM st name ps body) /\ Rel (defunM st name ps body) ((name, (ps, body)) :: ft) /\
   out (defunM st name ps body) = out st.
 Proof. exact defunM_step. Qed.
 Print Assumptions C08_defun_step.
 
 (* (6) Late binding: code that has been evaluated (so its slots are compiled and hold Lambda pointers)
-   sees a redefinition made afterwards: its next evaluation is S's with the new definition. *)
+   sees ANY redefinition made afterwards: its next evaluation is S's with the new definition. *)
 Theorem C08_redefinition_seen_by_cached_code : forall n st ft en e g ps body r0 st0 rS oS,
-  Inv st -> Rel st ft -> evalM n st en e = (r0, st0) -> g_defun st0 g ps body = true ->
+  Inv st -> Rel st ft -> evalM n st en e = (r0, st0) ->
   evalS n ((g, (ps, body)) :: ft) en (out st0) e = (rS, oS) -> comparable rS = true ->
   exists st1, evalM n (defunM st0 g ps body) en e = (rS, st1) /\ out st1 = oS.
 Proof. exact late_binding. Qed.
@@ -78,25 +78,19 @@ Print Assumptions C08_forward_reference_passes_arguments.
 
 (* (7) Definition-order independence.  (a) in S the table after a block of definitions of distinct names
    is the same function of the set of definitions for every order, hence every later evaluation is the
-   same; (b) the same for M: after the block in either order, every form evaluates to S's outcome;
-   (c) a block of distinct names, none defined before (possibly called before), is inside the guard in
-   every order - so from the empty state (b) needs no guard hypothesis. *)
+   same; (b) the same for M, in EVERY state satisfying the invariant (the names may have been defined, called
+   or compiled before): after the block in either order, every form evaluates to S's outcome. *)
 Theorem C08_order_independent_spec : forall ds ds' ft, Permutation ds ds' -> NoDup (map fst ds) ->
   forall n en o e, evalS n (deftab ds ft) en o e = evalS n (deftab ds' ft) en o e.
 Proof. exact order_independent_S. Qed.
 Print Assumptions C08_order_independent_spec.
 Theorem C08_order_independent : forall ds ds' st ft, Inv st -> Rel st ft ->
   Permutation ds ds' -> NoDup (map fst ds) ->
-  guard_defuns st ds = true -> guard_defuns st ds' = true ->
   forall n en e rS oS, evalS n (deftab ds ft) en (out st) e = (rS, oS) -> comparable rS = true ->
   exists st1 st2, evalM n (defunsM st ds) en e = (rS, st1) /\ evalM n (defunsM st ds') en e = (rS, st2) /\
                   out st1 = oS /\ out st2 = oS.
 Proof. exact order_independent_M. Qed.
 Print Assumptions C08_order_independent.
-Theorem C08_fresh_definitions_guarded : forall ds st ft, Inv st -> Rel st ft -> NoDup (map fst ds) ->
-  (forall f, In f (map fst ds) -> canon_or_new st f) -> guard_defuns st ds = true.
-Proof. exact fresh_defs_guarded. Qed.
-Print Assumptions C08_fresh_definitions_guarded.
 
 (* (8) Histories: every sequence of {read a code object, Code.Compile it, evaluate it} whose definitions
    are inside the guard gives, evaluation by evaluation, S's outcome (equal where S is binding; never a
@@ -106,14 +100,16 @@ Theorem C08_history_refines : forall n ops, guard_ops n minit ops = true ->
 Proof. exact history_refines. Qed.
 Print Assumptions C08_history_refines.
 
-(* (9) Outside the guard the faithful model violates S (= known findings).
-   C08-stale-lambda: once a name's creator holds a Lambda other than the registered one (after a forward
-   reference plus its definition, or after a second definition), calls compiled from then on are not
-   reached by the next redefinition. *)
-Theorem C08_refinement_needs_guard_refuted :
-  ~ (forall n ops, Forall2 osim (runS n sinit ops) (runM n minit ops)).
-Proof. exact refinement_needs_guard_refuted. Qed.
-Print Assumptions C08_refinement_needs_guard_refuted.
+(* (9) The witnesses of the repaired findings C08-stale-lambda-after-forward-reference and
+   C08-stale-lambda-after-second-definition are inside the guard and M gives S's answers (2 and 3; the
+   unrepaired code gave 1 and 2). *)
+Theorem C08_stale_lambda_repaired :
+  guard_ops 50 minit stale_ops = true /\ guard_ops 50 minit stale_ops2 = true /\
+  runM 50 minit stale_ops = [(Val (VInt 2%Z), [])] /\ runS 50 sinit stale_ops = [(Val (VInt 2%Z), [])] /\
+  runM 50 minit stale_ops2 = [(Val (VInt 3%Z), [])] /\ runS 50 sinit stale_ops2 = [(Val (VInt 3%Z), [])].
+Proof. exact stale_lambda_repaired. Qed.
+Print Assumptions C08_stale_lambda_repaired.
+(* Outside the guard the faithful model violates S (= known findings). *)
 (* C08-undefined-args-first: a compiled call of an undefined function evaluates its arguments before
    signalling undefined-function (the list form signals first), so M = S cannot be claimed for outcomes
    where S says undefined-function. *)
